@@ -24,6 +24,15 @@ def check_c15(ctx):
             names = {"NoDiagram:" + str(p["what"])}
         else:
             continue
+        if "FieldTypeDiffers" in names:
+            # one signature per role of a differing field: owner kind / collection / kind of the declared type
+            names.discard("FieldTypeDiffers")
+            for role, exm in sorted(_type_diffs(b, diags.get(t)).items()):
+                core.add_violation(ctx, "C15/FieldTypeDiffers/" + role,
+                                   "application %s: field %s.%s is declared %r but listed as %r" % ((b.get("app"),) + exm),
+                                   {"family": "datamodel", "scenario": by_id[t // 10], "app": b.get("app")})
+            if not names:
+                continue
         cls = _classify(b, diags.get(t))
         if cls and all("relation" in x for x in cls.split(",")) and names <= {"RelationshipMissing", "RelationshipToUndeclaredClass", "RelationshipNotInModel"}:
             sig = "C15/relationship-lines-involving-a-table"
@@ -42,8 +51,38 @@ def check_c15(ctx):
         "per-application diagrams generated in project manner (a project endpoint listing one application), class labels %(classname)",
         "drawn kinds: tables, tuples, primitive aliases, enums; unions and aliases of collections or references are neither required nor "
         "forbidden; a reference to a type of another application is neither required nor forbidden in a per-application diagram",
-        "multiplicity labels and field type texts are not compared",
+        "field types are compared as text (primitive name or reference as written, inside Set / Sequence / List); multiplicity labels are not compared",
     ])
+
+
+def _type_diffs(b, d):
+    """Fields whose listed type differs from the declared one, keyed by role."""
+    out = {}
+    if not b or not d:
+        return out
+    kinds = {t[0]: t[1] for t in b["mtypes"]}
+    apps = {t[0].rsplit(".", 1)[0] for t in b["mtypes"]}
+    mf = {(x[0], x[1]): x for x in b["mfields"]}
+    for c, n, ty in d.get("fields") or []:
+        m = mf.get((c, n))
+        if not m or len(m) < 5:
+            continue
+        want = m[4] if m[3] == "" else "%s <%s>" % (m[3], m[4])
+        if want == ty:
+            continue
+        base = m[4]
+        if not m[2]:
+            rk = "primitive"
+        elif "::" in base:
+            rk = "other-application-namespaced"
+        elif "." in base and base.rsplit(".", 1)[0] not in {x.rsplit(".", 1)[-1] for x in kinds}:
+            rk = "other-application"
+        elif "." in base:
+            rk = "field-of-local-type"
+        else:
+            rk = "local-type"
+        out.setdefault("%s/%s/%s" % (kinds.get(c, "?"), m[3] or "plain", rk), (c, n, want, ty))
+    return out
 
 
 def _classify(b, d):
@@ -53,7 +92,7 @@ def _classify(b, d):
     kinds = {t[0]: t[1] for t in b["mtypes"]}
     drawn = {k for k, v in kinds.items() if v in ("tuple", "relation", "enum", "alias")}
     want, opt, got = {}, {}, {}
-    for c, f, tg in b["mfields"]:
+    for c, f, tg in [x[:3] for x in b["mfields"]]:
         if tg.endswith("?"):
             if tg[:-1] in drawn:
                 opt[(c, tg[:-1])] = opt.get((c, tg[:-1]), 0) + 1
